@@ -41,7 +41,7 @@ META = {
     "rule": "element case = parameter record of one of 24 element kinds (every class; Bmad-X drift/quadrupole/dipole, "
             "cavity on/off, active diagnostics, blocking screen, space charge, custom map, TDC) x length in {0, menu, "
             "uniform} scalar or vectorised (2-3 entries, optionally one zero) x resolution in {> length, = length, "
-            "length/k exactly, non-dividing, decimal menu 0.1/0.25/0.3, many pieces <= 80} x dtype; lattice case = random "
+            "length/k exactly, non-dividing, decimal menu 0.1/0.25/0.3, many pieces <= 80, length a hair over k resolutions} x dtype; lattice case = random "
             "(nested) lattice of real elements x resolution; distinct = distinct (kind, length class, resolution "
             "class, vectorised, dtype) / distinct class sequence",
     "assumptions": [
@@ -103,7 +103,7 @@ def gen_resolution(rng, Lmax: float) -> tuple[float, str]:
     """(resolution, class)"""
     if Lmax == 0.0:
         return float(E.pick(rng, 0.1, 1.0, 0.01)), "L=0"
-    c = E.pick(rng, "larger", "equal", "dividing", "dividing", "non-dividing", "non-dividing", "decimal", "many")
+    c = E.pick(rng, "larger", "equal", "dividing", "dividing", "non-dividing", "non-dividing", "decimal", "many", "just-over")
     if c == "larger":
         return float(Lmax * E.pick(rng, 1.0000001, 1.5, 10.0, 1e3)), c
     if c == "equal":
@@ -117,6 +117,11 @@ def gen_resolution(rng, Lmax: float) -> tuple[float, str]:
         return float(Lmax / k * (1 + 1e-9)), c
     if c == "non-dividing":
         return float(Lmax * rng.uniform(0.02, 0.95)), c
+    if c == "just-over":
+        # the length is a hair more than k resolutions (k + 1e-5 … k + 4e-4: far above round-off in both dtypes, yet a
+        # "tolerant" piece count would round it away): k + 1 pieces are needed, k pieces are each longer than the resolution
+        k = int(E.pick(rng, 1, 2, 3, 5, 10))
+        return float(Lmax / (k + float(E.pick(rng, 1e-5, 1e-4, 4e-4)))), c
     if c == "decimal":
         res = float(E.pick(rng, 0.1, 0.25, 0.3, 0.05))
         q = Lmax / res
